@@ -41,21 +41,26 @@ pub fn h_iter_config() {
     // The real constructor builds a HashSet (RandomState -> OS randomness) and a VecDeque, which CBMC cannot get through
     // (measured: > 10 min).  The configuration functions only touch two scalar fields, so the iterator is assembled here
     // field by field with the constructor's documented defaults; the set of buffered ids is never looked at (and never dropped).
-    let mut it: TagIterator<&[u8], NoSpec> = TagIterator {
-        source: input,
-        tag_ids_to_buffer: unsafe { std::mem::MaybeUninit::zeroed().assume_init() },
-        allowed_errors: 0,
-        max_allowed_tag_size: Some(4 * usize::pow(1000, 3)),
-        buffer: Vec::new().into_boxed_slice(),
-        buffered_byte_length: 0,
-        buffer_offset: None,
-        internal_buffer_position: 0,
-        tag_stack: Vec::new(),
-        emission_queue: VecDeque::new(),
-        last_emitted_tag_offset: 0,
-        has_determined_doc_path: false,
-        emit_master_end_when_eof: true,
-    };
+    // Field-by-field through raw pointers into a zeroed value, so that a field added to the struct later (zero-valid types)
+    // does not stop this module - and with it every other harness of the crate - from compiling.
+    let mut mu: std::mem::MaybeUninit<TagIterator<&[u8], NoSpec>> = std::mem::MaybeUninit::zeroed();
+    let p = mu.as_mut_ptr();
+    unsafe {
+        std::ptr::addr_of_mut!((*p).source).write(input);
+        std::ptr::addr_of_mut!((*p).allowed_errors).write(0);
+        std::ptr::addr_of_mut!((*p).max_allowed_tag_size).write(Some(4 * usize::pow(1000, 3)));
+        std::ptr::addr_of_mut!((*p).buffer).write(Vec::new().into_boxed_slice());
+        std::ptr::addr_of_mut!((*p).buffered_byte_length).write(0);
+        std::ptr::addr_of_mut!((*p).buffer_offset).write(None);
+        std::ptr::addr_of_mut!((*p).internal_buffer_position).write(0);
+        std::ptr::addr_of_mut!((*p).tag_stack).write(Vec::new());
+        std::ptr::addr_of_mut!((*p).emission_queue).write(VecDeque::new());
+        std::ptr::addr_of_mut!((*p).last_emitted_tag_offset).write(0);
+        std::ptr::addr_of_mut!((*p).has_determined_doc_path).write(false);
+        std::ptr::addr_of_mut!((*p).emit_master_end_when_eof).write(true);
+    }
+    // tag_ids_to_buffer (a HashSet) stays zeroed: never looked at, never dropped
+    let mut it: TagIterator<&[u8], NoSpec> = unsafe { mu.assume_init() };
     // any list of up to 4 classes, in any order, with repetitions
     let n = src::u8_();
     src::assume(n <= 4);
